@@ -190,6 +190,7 @@ where
         report: &'r mut Report,
         failed: bool,
         last_fail: Option<(String, Value)>,
+        first_fail: Option<(String, Value)>,
         fatal: bool,
         shrink_start: Option<std::time::Instant>,
     }
@@ -197,6 +198,7 @@ where
         report,
         failed: false,
         last_fail: None,
+        first_fail: None,
         fatal: false,
         shrink_start: None,
     });
@@ -260,6 +262,9 @@ where
                     s.report.evaluations += 1;
                 }
                 s.failed = true;
+                if s.first_fail.is_none() {
+                    s.first_fail = Some((message.clone(), replay.clone()));
+                }
                 s.last_fail = Some((message.clone(), replay));
                 Err(TestCaseError::fail(message))
             }
@@ -290,6 +295,24 @@ where
         Err(TestError::Fail(reason, value)) => {
             // `last_fail` is the last failing (i.e. the most shrunk) case; without one the closure
             // itself panicked (a harness error): keep the choice sequence and the reason
+            // re-validate the shrunk case under the normal (not the shrinking) budgets: a candidate
+            // that only "failed" because of the short windows used while shrinking is discarded in
+            // favour of the first, fully judged failure
+            let mut confirmed = None;
+            if s.last_fail.is_some() {
+                for _ in 0..3 {
+                    let mut scratch = Report::default();
+                    if let Case::Fail { message, replay } = f(&value, &mut scratch, false) {
+                        confirmed = Some((message, replay));
+                        break;
+                    }
+                }
+            }
+            if confirmed.is_none() && s.first_fail.is_some() {
+                s.last_fail = s.first_fail.take();
+            } else if confirmed.is_some() {
+                s.last_fail = confirmed;
+            }
             let (message, replay) = s.last_fail.take().unwrap_or((
                 format!("the check itself failed: {reason}"),
                 json!({"note": "panic inside the check, no case captured", "choices": value, "reason": reason.to_string()}),
